@@ -201,7 +201,7 @@ def gen_case(rng, n_target):
 
     def probe_subs(rq, req, p, focus=None, focus_obj=None):
         pq = None if p is None else prov_up(p)
-        if (focus_obj is not None or rng.random() < 0.35) and len(req) >= 1:
+        if (focus_obj is not None or rng.random() < 0.2) and len(req) >= 1:
             objs = objs_for(req, focus_obj)
             if objs:
                 return ["subscribers", rq, objs, pq]
@@ -250,6 +250,13 @@ def gen_case(rng, n_target):
         if kind == "a":
             return probe_adapter(rq, req, p, nm, fs, fo)
         return probe_subs(rq, req, p, fs, fo)
+
+    def pick_required_iface():
+        """an R interface that some registration / subscription requires (so that gaining or
+        losing it as an ancestor can flip an answer)"""
+        cands = [conv(x) for (_r, req, _p, _n) in regs_seen for x in req if conv(x) in R]
+        cands += [conv(x) for (_r, req, _p) in subs_seen for x in req if conv(x) in R]
+        return rng.choice(cands) if cands else None
 
     def emit(probe, mut, kind):
         if probe is None:
@@ -320,6 +327,12 @@ def gen_case(rng, n_target):
                 cand = [b for b in cand if b != n_regs - 1]
             rng.shuffle(cand)
             bs = sorted(cand[: rng.choice([0, 1, 1, 2])], reverse=True)
+            busy = [e[0] for e in regs_seen + subs_seen if e[0] < r and e[0] in cand]
+            if busy and rng.random() < 0.8:
+                # aim: add or drop a base registry that has registrations
+                b = rng.choice(busy)
+                cur = list(reg_bases[r])
+                bs = [y for y in cur if y != b] if b in cur else sorted(set(cur[:1] + [b]), reverse=True)
             moved = set(reg_bases[r]) ^ set(bs)
             seen = [e for e in regs_seen if e[0] in moved] or regs_seen
             sseen = [e for e in subs_seen if e[0] in moved] or subs_seen
@@ -338,6 +351,15 @@ def gen_case(rng, n_target):
             pool = [y for y in R if y < x]
             rng.shuffle(pool)
             bs = RC._consistent_bases(sim.specs, pool[: rng.choice([0, 1, 1, 2])])
+            a = pick_required_iface()
+            if a is not None and rng.random() < 0.8 and [y for y in R if y > a]:
+                # aim: make x gain or lose the required interface a as an ancestor
+                x = rng.choice([y for y in R if y > a])
+                cur = list(sim.specs[x]["bases"])
+                if a in sim.anc(x):
+                    bs = [b for b in cur if a not in sim.anc(b)]
+                else:
+                    bs = RC._consistent_bases(sim.specs, cur + [a])
             before = sim.anc(x)
             probe_spec = rng.choice(sorted(d for d in sim.desc(x) if d in look_pool) or [x])
             sim.specs[x]["bases"] = bs
@@ -355,6 +377,13 @@ def gen_case(rng, n_target):
             ifs = [x for x in R if rng.random() < 0.35][: (1 if how == "first" else 2)]
             if not ifs and how != "only":
                 ifs = [rng.choice(R)]
+            a = pick_required_iface()
+            if a is not None and rng.random() < 0.8:
+                if a in sim.anc(c):
+                    how, ifs = "only", [i for i in ifs if a not in sim.anc(i)]
+                else:
+                    how = rng.choice(["add", "add", "first"])
+                    ifs = [a] if how == "first" else RC._consistent_bases(sim.specs, [a] + [i for i in ifs if i != a][:1])
             before = sim.anc(c)
             probe_spec = rng.choice(sorted(d for d in sim.desc(c) if d in classes) or [c])
             sp = sim.specs[c]
@@ -380,19 +409,25 @@ def gen_case(rng, n_target):
             j = rng.randrange(len(sim.objects))
             o = sim.objects[j]
             before = sim.obj_anc(j)
+            a = pick_required_iface()
             if k == "directlyprovides":
                 ifs = RC._consistent_bases(sim.specs, [x for x in R if rng.random() < 0.35][:2])
+                if a is not None and rng.random() < 0.7:
+                    ifs = [i for i in ifs if a not in sim.anc(i)] if a in before else RC._consistent_bases(sim.specs, ifs[:1] + [a])
                 o["direct"] = list(ifs)
                 mut = [k, j, ifs]
             elif k == "alsoprovides":
                 ifs = [rng.choice(R)]
+                if a is not None and a not in before and rng.random() < 0.8:
+                    ifs = [a]
                 o["direct"] = o["direct"] + [i for i in ifs if i not in o["direct"]]
                 mut = [k, j, ifs]
             else:
                 own = [d for d in o["direct"] if d not in sim.anc(o["cls"])]
                 if not own:
                     continue
-                i = rng.choice(own)
+                wanted = [d for d in own if any(d in [conv(y) for y in e[1]] for e in regs_seen + subs_seen)]
+                i = rng.choice(wanted or own)
                 o["direct"] = [d for d in o["direct"] if d != i]
                 mut = [k, j, i]
             changed = before ^ sim.obj_anc(j)
@@ -415,6 +450,10 @@ def generate(run, tier):
 def _small(a):
     """the 999999 separator of subscribers() answers is written 10001 (see Tie/C05.v norm1)"""
     return [10001 if x == 999999 else x for x in a]
+
+
+def _lN(a):
+    return "[" + "; ".join("%d%%N" % x for x in a) + "]"
 
 
 def _cop_terms(case, obs):
@@ -448,9 +487,9 @@ def coq_case(case, obs, mode):
     if obs["trouble"]:
         raise C.HarnessError("driver trouble: " + "; ".join(obs["trouble"][:3]))
     terms, answers, index = _cop_terms(case, obs)
-    erased = "[" + "; ".join("(%d, %s)" % (index[i], RC.c_lnat(_small(a))) for i, a in obs["erased"]) + "]"
+    erased = "[" + "; ".join("(%d, %s)" % (index[i], _lN(_small(a))) for i, a in obs["erased"]) + "]"
     return "(%s, %s,\n   [%s],\n   %s,\n   %s)" % (
-        RC.c_graph(obs), RC.c_ifaces(obs), ";\n    ".join(terms), RC.c_answers(answers), erased)
+        RC.c_graph(obs), RC.c_ifaces(obs), ";\n    ".join(terms), "[" + "; ".join(_lN(a) for a in answers) + "]", erased)
 
 
 # --------------------------------------------------------------------------- coverage
